@@ -842,8 +842,6 @@ where
                         } else if let Err(err) = output {
                             error!(?err);
                         }
-                        // This breaks from the `start` loop and drops the state machine
-                        let _ = cmd_tx.send(PolicyCmd::Stop).await;
                     };
                     tokio::select!(
                         _ = mpc_fut => {},
@@ -856,6 +854,11 @@ where
                     // Nothing is sent to the output destination after this point. The permit
                     // is stored if `cancel()` is not waiting yet.
                     cancelled.notify_one();
+                    // This breaks from the `start` loop and drops the state machine. It must not
+                    // be part of `mpc_fut`: while the task waits for room in the command queue a
+                    // cancellation would otherwise still win the `select!` and send a second
+                    // notification after the result.
+                    let _ = cmd_tx.send(PolicyCmd::Stop).await;
                 };
 
                 tokio::spawn(fut.instrument(span));
